@@ -176,3 +176,19 @@ Theorem walk_model_is_source_direct_step :
   g_frame_test_0 consumed ln = (consumed <? ln) /\ g_torch_test_3 consumed ln = (consumed <? ln).
 Proof. exact walk_direct_step_tie. Qed.
 Print Assumptions walk_model_is_source_direct_step.
+
+(* the optional energy coefficient (mean square of the unwindowed frame; square root unless
+   use_power) and the log floor *)
+From Verif Require Import Stft.Energy.
+Theorem energy_coefficient_spec :
+  forall (xs : list R) (Lr floor : R),
+  np_energy xs Lr floor true false = (sumsq xs / Lr)%R /\
+  np_energy xs Lr floor false false = sqrt (sumsq xs / Lr) /\
+  np_energy xs Lr floor true true = ln (Rmax (sumsq xs / Lr) floor) /\
+  np_energy xs Lr floor false true = ln (Rmax (sqrt (sumsq xs / Lr)) floor).
+Proof. exact np_energy_spec_l. Qed.
+Print Assumptions energy_coefficient_spec.
+Theorem log_floor_lower_bound :
+  forall e floor : R, (0 < floor -> ln floor <= ln (Rmax e floor))%R.
+Proof. exact log_floor_lower_bound_l. Qed.
+Print Assumptions log_floor_lower_bound.
